@@ -29,12 +29,18 @@ static const pcfg_t pcfgs[] = {
 };
 #define NPCFG ((int) (sizeof(pcfgs) / sizeof(pcfgs[0])))
 
-static const int triples_q[][3] = { { 1, 16, 17 }, { 0, 33, 255 }, { 15, 31, 32 }, { 256, 1, 16385 } };
-static const int triples_t[][3] = { { 1, 16, 17 }, { 0, 33, 255 }, { 15, 31, 32 }, { 256, 1, 16385 }, { 16383, 16384, 40000 }, { 16384, 0, 1 }, { 17, 17, 17 } };
-static const int triples_d[][3] = { { 1, 16, 17 }, { 0, 33, 255 }, { 15, 31, 32 }, { 256, 1, 1000 } };
+/* {12, 28, 300}: with a 20-byte MAC these end on a block boundary (the last block is a full, known padding block) */
+static const int triples_q[][3] = { { 1, 16, 17 }, { 0, 33, 255 }, { 15, 31, 32 }, { 256, 1, 16385 }, { 12, 28, 300 } };
+static const int triples_t[][3] = { { 1, 16, 17 }, { 0, 33, 255 }, { 15, 31, 32 }, { 256, 1, 16385 }, { 12, 28, 300 }, { 16383, 16384, 40000 }, { 16384, 0, 1 }, { 17, 17, 17 } };
+static const int triples_d[][3] = { { 1, 16, 17 }, { 0, 33, 255 }, { 15, 31, 32 }, { 256, 1, 1000 }, { 12, 28, 300 } };
 
-enum { E_FLIP = 0, E_TRUNC, E_EXTEND, E_TYPE, E_VER, E_LEN, E_SWAP, E_DROP, E_DUP, E_INSERT, E_REFLECT, E_SPLICE, E_NONE, E_NK };
-static const char *ename[] = { "bitflip", "truncate", "extend", "type", "version", "length", "swap", "drop", "dup", "insert-replay", "reflect", "splice", "none" };
+enum { E_FLIP = 0, E_TRUNC, E_EXTEND, E_TYPE, E_VER, E_LEN, E_SWAP, E_DROP, E_DUP, E_INSERT, E_REFLECT, E_SPLICE, E_NONE, E_PADSPLICE, E_NK };
+static const char *ename[] = { "bitflip", "truncate", "extend", "type", "version", "length", "swap", "drop", "dup", "insert-replay", "reflect", "splice", "none", "cbc-padding-rewrite" };
+static int cbc_mac_len(const char *prot)
+{
+    if (strncmp(prot, "cbc", 3)) return 0;
+    return strstr(prot, "sha384") ? 48 : strstr(prot, "sha256") ? 32 : 20;
+}
 typedef struct { unsigned char kind; unsigned char i, j; int a, b; } edit_t;
 
 #define MAXREC 12
@@ -173,6 +179,25 @@ static void build_edits(gctx_t *g)
     {
         add_edit(g, E_REFLECT, 0, j, 0, 0);
     }
+    /* CBC (MAC-then-encrypt, explicit IV): a record whose plaintext + MAC ends on a block boundary ends in a full padding
+     * block of KNOWN plaintext (16 x 0x0f).  Without any key the attacker can rewrite the padding to every longer legal
+     * length T = 31, 47, ..., 255: (T+1)/16 - 2 arbitrary blocks and the block X = C[n-1] xor 0x0f.. xor TT.. are inserted
+     * before the last block, which then decrypts to 16 x T; the MAC still sits where padding length T says it does.  Only
+     * the check of EVERY padding byte rejects these records. */
+    {
+        int mac = cbc_mac_len(pcfgs[g->pi].prot), T;
+        for (i = 0; mac && i < n; i++)
+        {
+            if (g->ptlen[i] < 0 || (g->ptlen[i] + mac) % 16 != 0 || g->rlen[i] - g->hdr < 48)
+            {
+                continue;
+            }
+            for (T = 31; T <= 255; T += 16)
+            {
+                add_edit(g, E_PADSPLICE, i, 0, T, 0);
+            }
+        }
+    }
 }
 
 /* build the modified unit list */
@@ -272,6 +297,28 @@ static int apply_edit(gctx_t *g, const edit_t *e, unit_t *u, int *first_mod)
             if (i < N) COPY(i, 0);
         }
         *first_mod = e->j;
+        break;
+    case E_PADSPLICE:
+        for (i = 0; i < N; i++)
+        {
+            COPY(i, i == e->i);
+            if (i == e->i)
+            {
+                unit_t *x = &u[n - 1];
+                int T = e->a, k = (T + 1) / 16 - 1, L = g->rlen[i], bl, q;   /* k inserted blocks: k-1 arbitrary + X (the old padding block becomes the 16th.. last block of the new padding) */
+                unsigned char *np = malloc((size_t) L + 16 * (size_t) k + 64), *prev = g->rec[i] + L - 32, *o;
+                memcpy(np, g->rec[i], (size_t) (L - 16));
+                o = np + L - 16;
+                for (q = 0; q < 16 * (k - 1); q++) *o++ = (unsigned char) (0x52 + q);
+                for (q = 0; q < 16; q++) *o++ = (unsigned char) (prev[q] ^ 0x0f ^ T);
+                memcpy(o, g->rec[i] + L - 16, 16);
+                bl = L - h + 16 * k;
+                np[lo] = (unsigned char) (bl >> 8); np[lo + 1] = (unsigned char) bl;
+                free(x->p);
+                x->p = np; x->len = L + 16 * k;
+                *first_mod = i;
+            }
+        }
         break;
     case E_SPLICE:
         for (i = 0; i < N; i++)
@@ -689,9 +736,9 @@ static int ntriples(int pi)
 {
     if (ver_is_dtls(pcfgs[pi].ver))
     {
-        return 4;
+        return 5;
     }
-    return thorough ? 7 : 4;
+    return thorough ? 8 : 5;
 }
 
 static void run_group(long gi, void *unused)
